@@ -306,7 +306,11 @@ impl BDF {
             let mut h_signed = direction * h_try;
             let x_start = x;
             let mut x_new = x + h_signed;
-            if direction * (x_new - xend) > 0.0 {
+            // A step that would end beside xend -- what is left is below the resolution of x_new, the
+            // stagnation test below -- is taken to xend itself: no later step could cover the rest.
+            let rest = xend - x_new;
+            let beside_xend = rest != 0.0 && x_new + 0.1 * rest == x_new;
+            if direction * (x_new - xend) > 0.0 || beside_xend {
                 let step_to_end = (xend - x).abs();
                 if step_to_end == 0.0 {
                     status = Status::Success;
